@@ -412,3 +412,31 @@ pub fn render(log: &[Rec], max: usize) -> Vec<String> {
         format!("{i:4} t={}us {body}", r.t)
     }).collect()
 }
+
+
+/// THR engine: the same scenario on a multi-thread runtime in real time. Only safety
+/// monitors give verdicts there; a wall-clock timeout is inconclusive, never a violation.
+pub fn run_threads<T, Fut>(sh: &Sh, workers: usize, limit: Duration, scenario: impl FnOnce(Sh) -> Fut) -> RunEnd<T>
+where
+    Fut: Future<Output = T>,
+{
+    let rt = tokio::runtime::Builder::new_multi_thread().worker_threads(workers).enable_time().build().expect("runtime");
+    set_current(Some(sh.clone()));
+    let sh2 = sh.clone();
+    let r = std::panic::catch_unwind(std::panic::AssertUnwindSafe(|| {
+        rt.block_on(async move {
+            sh2.lock().start = Some(tokio::time::Instant::now());
+            let fut = scenario(sh2.clone());
+            match tokio::time::timeout(limit, fut).await {
+                Ok(v) => RunEnd::Finished(v),
+                Err(_) => RunEnd::Stalled,
+            }
+        })
+    }));
+    rt.shutdown_background();
+    set_current(None);
+    match r {
+        Ok(v) => v,
+        Err(_) => RunEnd::Panicked("panic".into()),
+    }
+}
